@@ -199,6 +199,7 @@ def tasks(tier):
     for abi in sorted(CONVS):
         t.append(["S", abi, "default", tier])
         t.append(["M", abi, "default", tier])
+        t.append(["I", abi, "default", tier])
     for abi in sorted(CONVS):
         for conv in C_CONVS[abi]:
             for prof in ("default", "noalign"):
@@ -257,6 +258,19 @@ def _cases(task):
             for prof in ("default", "noalign"):
                 for n in (0, 1, 2, 4, 5, 7, 9):
                     yield {"abi": abi, "conv": conv, "profile": prof, "where": "nonleaf", "args": [DEFAULT] * n, "pre": pre}
+    elif kind == "I":
+        # the argument list handed over as something other than a list: the signature says Iterable, and a generator,
+        # an iterator or a map object can be walked only once
+        nregs = len(_conv_of({"abi": abi, "conv": conv})["registers"])
+        for form in ARG_FORMS:
+            for prof in ("default", "noalign"):
+                for n in sorted({0, 1, 2, nregs, nregs + 1, nregs + 3}):
+                    yield {"abi": abi, "conv": conv, "profile": prof, "where": "nonleaf", "args": [DEFAULT] * n, "argform": form}
+                    for pos in sorted({0, n - 1}) if n else ():
+                        for c in ("fn-int", "sym", "-1"):
+                            args = [DEFAULT] * n
+                            args[pos] = c
+                            yield {"abi": abi, "conv": conv, "profile": prof, "where": "nonleaf", "args": args, "argform": form}
     elif kind == "C3":
         prof, first = task[3], task[4]
         for b in CLASSES:
@@ -280,6 +294,15 @@ class RecordingCallPatch(CallPatch):
             self.seen = insertion_context
             self.asm = asm
         return "nop\n" + asm
+
+
+ARG_FORMS = {
+    "list": list,
+    "tuple": tuple,
+    "generator": lambda a: (x for x in a),
+    "iterator": iter,
+    "map": lambda a: map(lambda x: x, a),
+}
 
 
 def _arg_symbol(pos, site=0):
@@ -346,6 +369,7 @@ def _generate(case):
         site_blocks.append(world.blocks[wname][used.get(wname, 0)])
         used[wname] = used.get(wname, 0) + 1
     args = _build_args(world, case["args"], calls, lambda ctx: next((i for i, b in enumerate(site_blocks) if b is ctx.block), -1))
+    args = ARG_FORMS[case.get("argform", "list")](args)
     try:
         patch = RecordingCallPatch(world.syms["foo"], args, conv, **_profile_kwargs(abi, case["profile"]))
     except Exception as e:
